@@ -82,7 +82,7 @@ Section Grouping.
     group tag_key l = fold_left (fun d o => aappend d (tag_key (first_tag o)) o) l [].
   Proof.
     intros l H. unfold group. apply fold_left_ext_in. intros d o Hin.
-    unfold group_step. rewrite (single_tag_default o (H o Hin)). reflexivity.
+    unfold group_step, group_tags. rewrite (single_tag_default o (H o Hin)). reflexivity.
   Qed.
   Lemma candidates_single : forall l, single_tag l ->
     candidates tag_key l = fold_left (fun d o => aappend d (tag_key (first_tag o)) (first_tag o)) l [].
